@@ -298,11 +298,27 @@ CHECK_DEADLOCK FALSE
             if [x for x in o[1]] != groups + [x for x in o[1] if x not in groups]:
                 rest = [0]  # groups must come first
         ev.append({"op": "gate", "flags": flags, "r": "ok" if o[0] == "ok" else str(o[1]), "groups": groups, "rest": rest})
+    # every scalar pretty-printer of the frozen table StructuredR.ScalarKind (text, hex, NUL-terminated bytes) and the BOF allocator
+    SCALAR = [8, 9, 10, 15, 26, 27, 29, 30, 54, 60, 61, 62, 63, 64, 65, 66, 14, 53, 74, 36]
+    for idx in SCALAR:
+        for _ in range(3 if q else 60):
+            body = bytes(rng.randrange(1, 256) for _ in range(rng.choice([0, 1, 5, 16, 40])))
+            raw = rng.choice([body, body + b"\x00", body + b"\x00" + bytes(rng.randrange(256) for _ in range(rng.randrange(1, 12))), body.ljust(64, b"\x00")])
+            if idx == 9:
+                raw = raw[:100]  # (the 128-byte User-Agent continuation is C02's subject)
+            o = core.guarded(lambda: cfg_with(beacon, idx, raw).settings_by_index[idx], seconds=10)
+            ctx.evaluations += 1
+            out = o[1] if o[0] == "ok" else None
+            codes = L(out.encode("latin-1")) if isinstance(out, str) else L(out) if isinstance(out, bytes) else [256]
+            ev.append({"op": "scalar", "idx": idx, "bytes": L(raw), "r": "ok" if o[0] == "ok" else str(o[1])[:100], "out": codes})
+    for v in (0, 1, 2, 3, 65535):
+        o = core.guarded(lambda: beacon.BeaconConfig(tlv.block([tlv.short(1, 0), tlv.short(16, v)], patch_size=0) + b"\x00\x00").settings_by_index[16], seconds=10)
+        ev.append({"op": "bof", "v": v, "r": "ok" if o[0] == "ok" else str(o[1])[:100], "out": "none" if o[0] != "ok" or o[1] is None else str(o[1])})
     derived_part(ctx, beacon, rng)
     bad = core.tlc_judge(ctx, "StructuredIO", "", ev, env={"TIER": ctx.tier}, timeout=2400)
     for i, failed in bad:
         e = ev[i]
-        nm = {"prog": "SETTING_C2_REQUEST", "rec": "SETTING_C2_RECOVER", "gate": "SETTING_BEACON_GATE"}[e["op"]]
+        nm = {"prog": "SETTING_C2_REQUEST", "rec": "SETTING_C2_RECOVER", "gate": "SETTING_BEACON_GATE", "bof": "SETTING_BOF_ALLOCATOR"}.get(e["op"]) or f"setting index {e.get('idx')}"
         viol(nm, sorted(failed)[0], {k: (v if not isinstance(v, list) or len(v) < 60 else f"<{len(v)} items>") for k, v in e.items()})
     ctx.sample({"event": {k: (v if not isinstance(v, list) or len(v) < 30 else f"<{len(v)} items>") for k, v in ev[0].items()}})
     ctx.notes["rule"] = ("model: every transform program of <= 3 steps over the full opcode set (arguments empty / 1 byte / with NULs) through the decoder machine; BeaconGate vectors "
